@@ -2,7 +2,7 @@
    One definition per translated Go function: its BODY, statement by statement, in the res
    monad of Lib/GoBytes.v.  Proofs/GenEq*.v prove each one equal to the hand-written model.
    A function outside the supported subset appears as  go_<pkg>_<func>_UNSUPPORTED. *)
-From Verif Require Import GoBytes LineLib.
+From Verif Require Import GoBytes LineLib CapsLib Base64.
 Open Scope Z_scope.
 
 (* uint8 arithmetic wraps modulo 256 (operands are bytes, < 256) *)
@@ -15,6 +15,16 @@ Definition go_string_of_byte (c : N) : bytes :=
 (* x / y and x % y on int with a divisor that is not a non-zero constant *)
 Definition go_int_quot (a b : Z) : res Z := if b =? 0 then Panic else Ok (Z.quot a b).
 Definition go_int_rem (a b : Z) : res Z := if b =? 0 then Panic else Ok (Z.rem a b).
+(* m[k] and delete(m, k) on a map[string]bool (CapsLib.kmap) *)
+Definition go_kmap_get (m : kmap) (k : bytes) : bool := match km_get m k with Some v => v | None => false end.
+Definition go_kmap_delete (m : kmap) (k : bytes) : kmap := km_filter (fun x => negb (beq x k)) m.
+(* a []byte is an option (None = nil); its content *)
+Definition go_nbytes (b : option bytes) : bytes := match b with Some x => x | None => [] end.
+(* base64.StdEncoding.DecodeString: (decoded, err) *)
+Definition go_b64_decode (s : bytes) : option bytes * bool :=
+  match b64_decode s with Some b => (Some b, false) | None => (None, true) end.
+(* x != nil on a pointer, an interface value or a map *)
+Definition go_is_some {A} (o : option A) : bool := match o with Some _ => true | None => false end.
 (* m[k] = v on a map[string]string (None = nil map: assignment panics) *)
 Definition go_map_set (m : option tagmap) (k v : bytes) : res (option tagmap) :=
   match m with Some mm => Ok (Some (tags_set mm k v)) | None => Panic end.
@@ -623,3 +633,500 @@ Definition go_client_ParseLine (s : bytes) : res (option (option tagmap * bytes 
     else
       k1 (s, line_Tags)).
 
+(* Line.argslen — client/line.go *)
+Definition go_client_Line_argslen (line_Args : list bytes) (minlen : Z) : res bool :=
+  if llen line_Args <=? minlen then
+    Ok false
+  else
+    Ok true.
+
+(* type Nick struct { Nick, Ident, Host, Name, Modes, Channels }: the fields Nick, Ident, Host, Name; a *Nick is an option (None = nil) *)
+Definition go_state_Nick : Type := (bytes * bytes * bytes * bytes)%type.
+Definition go_state_Nick_get_Nick (p : option go_state_Nick) : res bytes :=
+  match p with Some (x1, x2, x3, x4) => Ok x1 | None => Panic end.
+Definition go_state_Nick_set_Nick (p : option go_state_Nick) (v : bytes) : res (option go_state_Nick) :=
+  match p with Some (x1, x2, x3, x4) => Ok (Some (v, x2, x3, x4)) | None => Panic end.
+Definition go_state_Nick_get_Ident (p : option go_state_Nick) : res bytes :=
+  match p with Some (x1, x2, x3, x4) => Ok x2 | None => Panic end.
+Definition go_state_Nick_set_Ident (p : option go_state_Nick) (v : bytes) : res (option go_state_Nick) :=
+  match p with Some (x1, x2, x3, x4) => Ok (Some (x1, v, x3, x4)) | None => Panic end.
+Definition go_state_Nick_get_Host (p : option go_state_Nick) : res bytes :=
+  match p with Some (x1, x2, x3, x4) => Ok x3 | None => Panic end.
+Definition go_state_Nick_set_Host (p : option go_state_Nick) (v : bytes) : res (option go_state_Nick) :=
+  match p with Some (x1, x2, x3, x4) => Ok (Some (x1, x2, v, x4)) | None => Panic end.
+Definition go_state_Nick_get_Name (p : option go_state_Nick) : res bytes :=
+  match p with Some (x1, x2, x3, x4) => Ok x4 | None => Panic end.
+Definition go_state_Nick_set_Name (p : option go_state_Nick) (v : bytes) : res (option go_state_Nick) :=
+  match p with Some (x1, x2, x3, x4) => Ok (Some (x1, x2, x3, v)) | None => Panic end.
+
+(* type ChanPrivs struct { Owner, Admin, Op, HalfOp, Voice }: the fields Owner, Admin, Op, HalfOp, Voice; a *ChanPrivs is an option (None = nil) *)
+Definition go_state_ChanPrivs : Type := (bool * bool * bool * bool * bool)%type.
+Definition go_state_ChanPrivs_get_Owner (p : option go_state_ChanPrivs) : res bool :=
+  match p with Some (x1, x2, x3, x4, x5) => Ok x1 | None => Panic end.
+Definition go_state_ChanPrivs_set_Owner (p : option go_state_ChanPrivs) (v : bool) : res (option go_state_ChanPrivs) :=
+  match p with Some (x1, x2, x3, x4, x5) => Ok (Some (v, x2, x3, x4, x5)) | None => Panic end.
+Definition go_state_ChanPrivs_get_Admin (p : option go_state_ChanPrivs) : res bool :=
+  match p with Some (x1, x2, x3, x4, x5) => Ok x2 | None => Panic end.
+Definition go_state_ChanPrivs_set_Admin (p : option go_state_ChanPrivs) (v : bool) : res (option go_state_ChanPrivs) :=
+  match p with Some (x1, x2, x3, x4, x5) => Ok (Some (x1, v, x3, x4, x5)) | None => Panic end.
+Definition go_state_ChanPrivs_get_Op (p : option go_state_ChanPrivs) : res bool :=
+  match p with Some (x1, x2, x3, x4, x5) => Ok x3 | None => Panic end.
+Definition go_state_ChanPrivs_set_Op (p : option go_state_ChanPrivs) (v : bool) : res (option go_state_ChanPrivs) :=
+  match p with Some (x1, x2, x3, x4, x5) => Ok (Some (x1, x2, v, x4, x5)) | None => Panic end.
+Definition go_state_ChanPrivs_get_HalfOp (p : option go_state_ChanPrivs) : res bool :=
+  match p with Some (x1, x2, x3, x4, x5) => Ok x4 | None => Panic end.
+Definition go_state_ChanPrivs_set_HalfOp (p : option go_state_ChanPrivs) (v : bool) : res (option go_state_ChanPrivs) :=
+  match p with Some (x1, x2, x3, x4, x5) => Ok (Some (x1, x2, x3, v, x5)) | None => Panic end.
+Definition go_state_ChanPrivs_get_Voice (p : option go_state_ChanPrivs) : res bool :=
+  match p with Some (x1, x2, x3, x4, x5) => Ok x5 | None => Panic end.
+Definition go_state_ChanPrivs_set_Voice (p : option go_state_ChanPrivs) (v : bool) : res (option go_state_ChanPrivs) :=
+  match p with Some (x1, x2, x3, x4, x5) => Ok (Some (x1, x2, x3, x4, v)) | None => Panic end.
+
+(* type Channel struct { Name, Topic, Modes, Nicks }: the fields Name, Topic; a *Channel is an option (None = nil) *)
+Definition go_state_Channel : Type := (bytes * bytes)%type.
+Definition go_state_Channel_get_Name (p : option go_state_Channel) : res bytes :=
+  match p with Some (x1, x2) => Ok x1 | None => Panic end.
+Definition go_state_Channel_set_Name (p : option go_state_Channel) (v : bytes) : res (option go_state_Channel) :=
+  match p with Some (x1, x2) => Ok (Some (v, x2)) | None => Panic end.
+Definition go_state_Channel_get_Topic (p : option go_state_Channel) : res bytes :=
+  match p with Some (x1, x2) => Ok x2 | None => Panic end.
+Definition go_state_Channel_set_Topic (p : option go_state_Channel) (v : bytes) : res (option go_state_Channel) :=
+  match p with Some (x1, x2) => Ok (Some (x1, v)) | None => Panic end.
+
+(* type Tracker interface of package state: an abstract state ST and one function per method,
+   from the state and the arguments to the new state and the result *)
+Record go_state_Tracker (ST : Type) := {
+  go_state_Tracker_Associate : ST -> bytes -> bytes -> ST * (option go_state_ChanPrivs);
+  go_state_Tracker_ChannelModes : ST -> bytes -> bytes -> list bytes -> ST * (option go_state_Channel);
+  go_state_Tracker_DelChannel : ST -> bytes -> ST * (option go_state_Channel);
+  go_state_Tracker_DelNick : ST -> bytes -> ST * (option go_state_Nick);
+  go_state_Tracker_Dissociate : ST -> bytes -> bytes -> ST;
+  go_state_Tracker_GetChannel : ST -> bytes -> ST * (option go_state_Channel);
+  go_state_Tracker_GetNick : ST -> bytes -> ST * (option go_state_Nick);
+  go_state_Tracker_IsOn : ST -> bytes -> bytes -> ST * (option go_state_ChanPrivs * bool);
+  go_state_Tracker_Me : ST -> ST * (option go_state_Nick);
+  go_state_Tracker_NewChannel : ST -> bytes -> ST * (option go_state_Channel);
+  go_state_Tracker_NewNick : ST -> bytes -> ST * (option go_state_Nick);
+  go_state_Tracker_NickInfo : ST -> bytes -> bytes -> bytes -> bytes -> ST * (option go_state_Nick);
+  go_state_Tracker_NickModes : ST -> bytes -> bytes -> ST * (option go_state_Nick);
+  go_state_Tracker_ReNick : ST -> bytes -> bytes -> ST * (option go_state_Nick);
+  go_state_Tracker_String : ST -> ST * bytes;
+  go_state_Tracker_Topic : ST -> bytes -> bytes -> ST * (option go_state_Channel);
+  go_state_Tracker_Wipe : ST -> ST
+}.
+Arguments go_state_Tracker_Associate {ST} _.
+Arguments go_state_Tracker_ChannelModes {ST} _.
+Arguments go_state_Tracker_DelChannel {ST} _.
+Arguments go_state_Tracker_DelNick {ST} _.
+Arguments go_state_Tracker_Dissociate {ST} _.
+Arguments go_state_Tracker_GetChannel {ST} _.
+Arguments go_state_Tracker_GetNick {ST} _.
+Arguments go_state_Tracker_IsOn {ST} _.
+Arguments go_state_Tracker_Me {ST} _.
+Arguments go_state_Tracker_NewChannel {ST} _.
+Arguments go_state_Tracker_NewNick {ST} _.
+Arguments go_state_Tracker_NickInfo {ST} _.
+Arguments go_state_Tracker_NickModes {ST} _.
+Arguments go_state_Tracker_ReNick {ST} _.
+Arguments go_state_Tracker_String {ST} _.
+Arguments go_state_Tracker_Topic {ST} _.
+Arguments go_state_Tracker_Wipe {ST} _.
+
+Section WithTracker.
+Context {ST : Type}.
+Variable trk : go_state_Tracker ST.
+
+(* Conn.Me — client/connection.go *)
+Definition go_client_Conn_Me (conn_cfg_Me : option go_state_Nick) (conn_st : option ST) : res (option go_state_Nick * option ST * option go_state_Nick) :=
+  p1 <- (
+      if go_is_some conn_st then
+        (p2 <- (match conn_st with None => Panic | Some s_ => let '(s_, r_) := go_state_Tracker_Me trk s_ in Ok (Some s_, r_) end) ;;
+        let '(conn_st, t1) := p2 in
+        let conn_cfg_Me : option go_state_Nick := t1 in
+        Ok (conn_cfg_Me, conn_st))
+      else
+        Ok (conn_cfg_Me, conn_st)) ;;
+  let '(conn_cfg_Me, conn_st) := p1 in
+  Ok (conn_cfg_Me, conn_st, conn_cfg_Me).
+
+(* Conn.h_PING — client/handlers.go *)
+Definition go_client_Conn_h_PING (line_Args : list bytes) : res (list bytes) :=
+  let out : list bytes := [] in
+  t1 <- elem_at line_Args 0 ;;
+  t2 <- go_client_Conn_Pong t1 ;;
+  Ok (out ++ t2).
+
+(* Conn.h_REGISTER — client/handlers.go *)
+Definition go_client_Conn_h_REGISTER (conn_cfg_EnableCapabilityNegotiation : bool) (conn_cfg_Me : option go_state_Nick) (conn_cfg_Pass : bytes) : res (list bytes) :=
+  let out : list bytes := [] in
+  out <- (
+      if conn_cfg_EnableCapabilityNegotiation then
+        (t1 <- go_client_Conn_Cap [76; 83]%N [] ;;
+        Ok (out ++ t1))
+      else
+        Ok out) ;;
+  out <- (
+      if negb (beq conn_cfg_Pass []) then
+        (t2 <- go_client_Conn_Pass conn_cfg_Pass ;;
+        Ok (out ++ t2))
+      else
+        Ok out) ;;
+  t3 <- go_state_Nick_get_Nick conn_cfg_Me ;;
+  t4 <- go_client_Conn_Nick t3 ;;
+  let out : list bytes := out ++ t4 in
+  t5 <- go_state_Nick_get_Ident conn_cfg_Me ;;
+  t6 <- go_state_Nick_get_Name conn_cfg_Me ;;
+  t7 <- go_client_Conn_User t5 t6 ;;
+  Ok (out ++ t7).
+
+(* Conn.h_CTCP — client/handlers.go *)
+Definition go_client_Conn_h_CTCP (conn_cfg_SplitLen : Z) (conn_cfg_Version : bytes) (line_Args : list bytes) (line_Nick : bytes) : res (list bytes) :=
+  let out : list bytes := [] in
+  t1 <- elem_at line_Args 0 ;;
+  if beq t1 [86; 69; 82; 83; 73; 79; 78]%N then
+    (t2 <- go_client_Conn_CtcpReply conn_cfg_SplitLen line_Nick [86; 69; 82; 83; 73; 79; 78]%N [conn_cfg_Version] ;;
+    Ok (out ++ t2))
+  else
+    (t3 <- elem_at line_Args 0 ;;
+    t5 <- (if beq t3 [80; 73; 78; 71]%N then t4 <- go_client_Line_argslen line_Args 2 ;; Ok t4 else Ok false) ;;
+    if t5 then
+      (t6 <- elem_at line_Args 2 ;;
+      t7 <- go_client_Conn_CtcpReply conn_cfg_SplitLen line_Nick [80; 73; 78; 71]%N [t6] ;;
+      Ok (out ++ t7))
+    else
+      Ok out).
+
+(* Conn.h_410 — client/handlers.go *)
+Definition go_client_Conn_h_410 (line_Args : list bytes) : res unit :=
+  t1 <- elem_at line_Args 1 ;;
+  Ok tt.
+
+(* Conn.h_NICK — client/handlers.go *)
+Definition go_client_Conn_h_NICK (conn_cfg_Me : option go_state_Nick) (conn_st : option ST) (line_Args : list bytes) (line_Nick : bytes) : res (option go_state_Nick) :=
+  t2 <- (if negb (go_is_some conn_st) then t1 <- go_state_Nick_get_Nick conn_cfg_Me ;; Ok (beq line_Nick t1) else Ok false) ;;
+  if t2 then
+    (t3 <- elem_at line_Args 0 ;;
+    go_state_Nick_set_Nick conn_cfg_Me t3)
+  else
+    Ok conn_cfg_Me.
+
+(* Conn.h_433 — client/handlers.go *)
+Definition go_client_Conn_h_433 (conn_cfg_Me : option go_state_Nick) (conn_cfg_NewNick : bytes -> bytes) (conn_st : option ST) (line_Args : list bytes) : res (option go_state_Nick * option ST * list bytes) :=
+  let out : list bytes := [] in
+  p1 <- go_client_Conn_Me conn_cfg_Me conn_st ;;
+  let '(conn_cfg_Me, conn_st, t1) := p1 in
+  let me : option go_state_Nick := t1 in
+  t2 <- elem_at line_Args 1 ;;
+  let neu : bytes := conn_cfg_NewNick t2 in
+  t3 <- go_client_Conn_Nick neu ;;
+  let out : list bytes := out ++ t3 in
+  t4 <- go_client_Line_argslen line_Args 1 ;;
+  if negb t4 then
+    Ok (conn_cfg_Me, conn_st, out)
+  else
+    (t5 <- elem_at line_Args 1 ;;
+    t6 <- go_state_Nick_get_Nick me ;;
+    p2 <- (
+        if beq t5 t6 then
+          (p3 <- (
+              if go_is_some conn_st then
+                (t7 <- go_state_Nick_get_Nick me ;;
+                p4 <- (match conn_st with None => Panic | Some s_ => let '(s_, r_) := go_state_Tracker_ReNick trk s_ t7 neu in Ok (Some s_, r_) end) ;;
+                let '(conn_st, t8) := p4 in
+                let n : option go_state_Nick := t8 in
+                let conn_cfg_Me : option go_state_Nick := (
+                    if go_is_some n then
+                      n
+                    else
+                      conn_cfg_Me) in
+                Ok (conn_st, conn_cfg_Me))
+              else
+                (conn_cfg_Me <- go_state_Nick_set_Nick conn_cfg_Me neu ;;
+                Ok (conn_st, conn_cfg_Me))) ;;
+          let '(conn_st, conn_cfg_Me) := p3 in
+          Ok (conn_st, conn_cfg_Me))
+        else
+          Ok (conn_st, conn_cfg_Me)) ;;
+    let '(conn_st, conn_cfg_Me) := p2 in
+    Ok (conn_cfg_Me, conn_st, out)).
+
+(* Conn.h_001 — client/handlers.go *)
+Definition go_client_Conn_h_001 (conn_cfg_Me : option go_state_Nick) (conn_st : option ST) (line_Args : list bytes) (line_Cmd : bytes) (line_Nick : bytes) : res (option go_state_Nick * option ST) :=
+  p1 <- go_client_Conn_Me conn_cfg_Me conn_st ;;
+  let '(conn_cfg_Me, conn_st, t1) := p1 in
+  t2 <- go_client_Line_Target line_Args line_Cmd line_Nick ;;
+  t3 <- go_client_Line_Text line_Args ;;
+  let '(me, nick, t) := (t1, t2, t3) in
+  let idx : Z := last_index t [32]%N in
+  t <- (
+      if negb (idx =? (-1)) then
+        slice_from t (idx + 1)
+      else
+        Ok t) ;;
+  t5 <- go_client_parseUserHost t ;;
+  let '(_, ident, host, ok) := t5 in
+  t6 <- go_state_Nick_get_Nick me ;;
+  p2 <- (
+      if negb (beq t6 nick) then
+        (t7 <- go_state_Nick_get_Nick me ;;
+        Ok tt)
+      else
+        Ok tt) ;;
+  let _ : unit := p2 in
+  p3 <- (
+      if go_is_some conn_st then
+        (conn_st <- (
+            if ok then
+              (t8 <- go_state_Nick_get_Nick me ;;
+              t9 <- go_state_Nick_get_Name me ;;
+              p4 <- (match conn_st with None => Panic | Some s_ => let '(s_, r_) := go_state_Tracker_NickInfo trk s_ t8 ident host t9 in Ok (Some s_, r_) end) ;;
+              let '(conn_st, t10) := p4 in
+              Ok conn_st)
+            else
+              Ok conn_st) ;;
+        t11 <- go_state_Nick_get_Nick me ;;
+        p5 <- (match conn_st with None => Panic | Some s_ => let '(s_, r_) := go_state_Tracker_ReNick trk s_ t11 nick in Ok (Some s_, r_) end) ;;
+        let '(conn_st, t12) := p5 in
+        let n : option go_state_Nick := t12 in
+        let conn_cfg_Me : option go_state_Nick := (
+            if go_is_some n then
+              n
+            else
+              conn_cfg_Me) in
+        Ok (conn_st, conn_cfg_Me))
+      else
+        (conn_cfg_Me <- go_state_Nick_set_Nick conn_cfg_Me nick ;;
+        conn_cfg_Me <- (
+            if ok then
+              (conn_cfg_Me <- go_state_Nick_set_Ident conn_cfg_Me ident ;;
+              go_state_Nick_set_Host conn_cfg_Me host)
+            else
+              Ok conn_cfg_Me) ;;
+        Ok (conn_st, conn_cfg_Me))) ;;
+  let '(conn_st, conn_cfg_Me) := p3 in
+  Ok (conn_cfg_Me, conn_st).
+
+(* capabilitySet — client/handlers.go *)
+Definition go_client_capabilitySet : res kmap :=
+  Ok km_empty.
+
+(* capSet.Add — client/handlers.go *)
+Definition go_client_capSet_Add (c_caps : kmap) (caps : list bytes) : res kmap :=
+  let fix loop1 (l : list bytes) (c_caps : kmap) {struct l} : res kmap :=
+      match l with
+      | [] => Ok c_caps
+      | cap :: l' =>
+          c_caps <- (
+              if has_prefix cap [45]%N then
+                (t1 <- slice_from cap 1 ;;
+                Ok (km_set c_caps t1 false))
+              else
+                Ok (km_set c_caps cap true)) ;;
+          loop1 l' c_caps
+      end in
+  c_caps <- loop1 caps c_caps ;;
+  Ok c_caps.
+
+(* capSet.Has — client/handlers.go *)
+Definition go_client_capSet_Has (c_caps : kmap) (cap : bytes) : res bool :=
+  Ok (go_kmap_get c_caps cap).
+
+(* capSet.Intersect — client/handlers.go *)
+Definition go_client_capSet_Intersect (c_caps : kmap) (other : kmap) : res kmap :=
+  let fix loop1 (l : list bytes) (c_caps : kmap) {struct l} : res kmap :=
+      match l with
+      | [] => Ok c_caps
+      | cap :: l' =>
+          t1 <- go_client_capSet_Has other cap ;;
+          let c_caps : kmap := (
+              if negb t1 then
+                go_kmap_delete c_caps cap
+              else
+                c_caps) in
+          loop1 l' c_caps
+      end in
+  c_caps <- loop1 (km_keys c_caps) c_caps ;;
+  Ok c_caps.
+
+(* capSet.Slice — client/handlers.go *)
+Definition go_client_capSet_Slice (c_caps : kmap) : res (list bytes) :=
+  let capSlice : list bytes := [] in
+  let fix loop1 (l : list bytes) (capSlice : list bytes) {struct l} : list bytes :=
+      match l with
+      | [] => capSlice
+      | cap :: l' =>
+          let capSlice : list bytes := capSlice ++ [cap] in
+          loop1 l' capSlice
+      end in
+  let capSlice := loop1 (km_keys c_caps) capSlice in
+  Ok (isort capSlice).
+
+(* capSet.Size — client/handlers.go *)
+Definition go_client_capSet_Size (c_caps : kmap) : res Z :=
+  Ok (km_size c_caps).
+
+(* type Client interface of package go-sasl, as an oracle: Start() = (mech, ir, err),
+   Next(challenge) = (response, err); a []byte is an option (None = nil), an error a bool *)
+Record go_sasl_Client := {
+  go_sasl_Client_Start : bytes * option bytes * bool;
+  go_sasl_Client_Next : option bytes -> option bytes * bool
+}.
+
+(* var defaultCaps = []string{...}, never assigned in the package *)
+Definition go_client_defaultCaps : list bytes := [].
+
+(* Conn.getRequestCapabilities — client/handlers.go *)
+Definition go_client_Conn_getRequestCapabilities (conn_cfg_Capabilites : list bytes) (conn_cfg_Sasl : option go_sasl_Client) : res kmap :=
+  s <- go_client_capabilitySet ;;
+  s <- go_client_capSet_Add s go_client_defaultCaps ;;
+  s <- (
+      if go_is_some conn_cfg_Sasl then
+        go_client_capSet_Add s [[115; 97; 115; 108]%N]
+      else
+        Ok s) ;;
+  go_client_capSet_Add s conn_cfg_Capabilites.
+
+(* Conn.negotiateCapabilities — client/handlers.go *)
+Definition go_client_Conn_negotiateCapabilities (conn_cfg_Capabilites : list bytes) (conn_cfg_Sasl : option go_sasl_Client) (conn_supportedCaps : kmap) (supportedCaps : list bytes) : res (kmap * list bytes) :=
+  let out : list bytes := [] in
+  conn_supportedCaps <- go_client_capSet_Add conn_supportedCaps supportedCaps ;;
+  reqCaps <- go_client_Conn_getRequestCapabilities conn_cfg_Capabilites conn_cfg_Sasl ;;
+  reqCaps <- go_client_capSet_Intersect reqCaps conn_supportedCaps ;;
+  t2 <- go_client_capSet_Size reqCaps ;;
+  out <- (
+      if t2 >? 0 then
+        (t3 <- go_client_capSet_Slice reqCaps ;;
+        t4 <- go_client_Conn_Cap [82; 69; 81]%N t3 ;;
+        Ok (out ++ t4))
+      else
+        (t5 <- go_client_Conn_Cap [69; 78; 68]%N [] ;;
+        Ok (out ++ t5))) ;;
+  Ok (conn_supportedCaps, out).
+
+(* Conn.handleCapNak — client/handlers.go *)
+Definition go_client_Conn_handleCapNak (caps : list bytes) : res (list bytes) :=
+  let out : list bytes := [] in
+  t1 <- go_client_Conn_Cap [69; 78; 68]%N [] ;;
+  Ok (out ++ t1).
+
+(* Conn.h_903 — client/handlers.go *)
+Definition go_client_Conn_h_903 : res (list bytes) :=
+  let out : list bytes := [] in
+  t1 <- go_client_Conn_Cap [69; 78; 68]%N [] ;;
+  Ok (out ++ t1).
+
+(* Conn.h_904 — client/handlers.go *)
+Definition go_client_Conn_h_904 : res (list bytes) :=
+  let out : list bytes := [] in
+  t1 <- go_client_Conn_Cap [69; 78; 68]%N [] ;;
+  Ok (out ++ t1).
+
+(* Conn.h_908 — client/handlers.go *)
+Definition go_client_Conn_h_908 (line_Args : list bytes) : res (list bytes) :=
+  let out : list bytes := [] in
+  t1 <- elem_at line_Args 1 ;;
+  t2 <- go_client_Conn_Cap [69; 78; 68]%N [] ;;
+  Ok (out ++ t2).
+
+(* Conn.handleCapAck — client/handlers.go *)
+Definition go_client_Conn_handleCapAck (conn_cfg_Sasl : option go_sasl_Client) (conn_currCaps : kmap) (conn_saslRemainingData : option bytes) (caps : list bytes) : res (kmap * option bytes * list bytes) :=
+  let out : list bytes := [] in
+  let gotSasl : bool := false in
+  let fix loop1 (l : list bytes) (gotSasl : bool) (conn_currCaps : kmap) (conn_saslRemainingData : option bytes) (out : list bytes) {struct l} : res (bool * kmap * option bytes * list bytes) :=
+      match l with
+      | [] => Ok (gotSasl, conn_currCaps, conn_saslRemainingData, out)
+      | cap :: l' =>
+          conn_currCaps <- go_client_capSet_Add conn_currCaps [cap] ;;
+          let k1 := fun (p : bool * option bytes * list bytes) =>
+              let '(gotSasl, conn_saslRemainingData, out) := p in
+              loop1 l' gotSasl conn_currCaps conn_saslRemainingData out in
+          if go_is_some conn_cfg_Sasl && beq cap [115; 97; 115; 108]%N then
+            (t1 <- (match conn_cfg_Sasl with None => Panic | Some c_ => Ok (go_sasl_Client_Start c_) end) ;;
+            let '(mech, ir, err) := t1 in
+            if err then
+              loop1 l' gotSasl conn_currCaps conn_saslRemainingData out
+            else
+              (let gotSasl : bool := true in
+              let conn_saslRemainingData : option bytes := ir in
+              t2 <- go_client_Conn_Authenticate mech ;;
+              let out : list bytes := out ++ t2 in
+              k1 (gotSasl, conn_saslRemainingData, out)))
+          else
+            k1 (gotSasl, conn_saslRemainingData, out)
+      end in
+  p1 <- loop1 caps gotSasl conn_currCaps conn_saslRemainingData out ;;
+  let '(gotSasl, conn_currCaps, conn_saslRemainingData, out) := p1 in
+  out <- (
+      if negb gotSasl then
+        (t3 <- go_client_Conn_Cap [69; 78; 68]%N [] ;;
+        Ok (out ++ t3))
+      else
+        Ok out) ;;
+  Ok (conn_currCaps, conn_saslRemainingData, out).
+
+(* Conn.h_CAP — client/handlers.go *)
+Definition go_client_Conn_h_CAP (conn_cfg_Capabilites : list bytes) (conn_cfg_Sasl : option go_sasl_Client) (conn_currCaps : kmap) (conn_saslRemainingData : option bytes) (conn_supportedCaps : kmap) (line_Args : list bytes) : res (kmap * option bytes * kmap * list bytes) :=
+  let out : list bytes := [] in
+  subcommand <- elem_at line_Args 1 ;;
+  t2 <- go_client_Line_Text line_Args ;;
+  let caps : list bytes := fields t2 in
+  p1 <- (
+      if beq subcommand [76; 83]%N then
+        (p2 <- go_client_Conn_negotiateCapabilities conn_cfg_Capabilites conn_cfg_Sasl conn_supportedCaps caps ;;
+        let '(conn_supportedCaps, t3) := p2 in
+        let out : list bytes := out ++ t3 in
+        Ok (conn_currCaps, conn_saslRemainingData, conn_supportedCaps, out))
+      else
+        (p3 <- (
+            if beq subcommand [65; 67; 75]%N then
+              (p4 <- go_client_Conn_handleCapAck conn_cfg_Sasl conn_currCaps conn_saslRemainingData caps ;;
+              let '(conn_currCaps, conn_saslRemainingData, t4) := p4 in
+              let out : list bytes := out ++ t4 in
+              Ok (conn_currCaps, conn_saslRemainingData, out))
+            else
+              (out <- (
+                  if beq subcommand [78; 65; 75]%N then
+                    (t5 <- go_client_Conn_handleCapNak caps ;;
+                    Ok (out ++ t5))
+                  else
+                    Ok out) ;;
+              Ok (conn_currCaps, conn_saslRemainingData, out))) ;;
+        let '(conn_currCaps, conn_saslRemainingData, out) := p3 in
+        Ok (conn_currCaps, conn_saslRemainingData, conn_supportedCaps, out))) ;;
+  let '(conn_currCaps, conn_saslRemainingData, conn_supportedCaps, out) := p1 in
+  Ok (conn_currCaps, conn_saslRemainingData, conn_supportedCaps, out).
+
+(* Conn.h_AUTHENTICATE — client/handlers.go *)
+Definition go_client_Conn_h_AUTHENTICATE (conn_cfg_Sasl : option go_sasl_Client) (conn_saslRemainingData : option bytes) (line_Args : list bytes) : res (option bytes * list bytes) :=
+  let out : list bytes := [] in
+  if negb (go_is_some conn_cfg_Sasl) then
+    Ok (conn_saslRemainingData, out)
+  else
+    (if go_is_some conn_saslRemainingData then
+      (let data : bytes := [43]%N in
+      let data : bytes := (
+          if len (go_nbytes conn_saslRemainingData) >? 0 then
+            b64_encode (go_nbytes conn_saslRemainingData)
+          else
+            data) in
+      t1 <- go_client_Conn_Authenticate data ;;
+      let out : list bytes := out ++ t1 in
+      let conn_saslRemainingData : option bytes := None in
+      Ok (conn_saslRemainingData, out))
+    else
+      (t2 <- elem_at line_Args 0 ;;
+      let '(challenge, err) := go_b64_decode t2 in
+      if err then
+        Ok (conn_saslRemainingData, out)
+      else
+        (t3 <- (match conn_cfg_Sasl with None => Panic | Some c_ => Ok (go_sasl_Client_Next c_ challenge) end) ;;
+        let '(response, err) := t3 in
+        if err then
+          Ok (conn_saslRemainingData, out)
+        else
+          (let data_1 : bytes := b64_encode (go_nbytes response) in
+          t4 <- go_client_Conn_Authenticate data_1 ;;
+          let out : list bytes := out ++ t4 in
+          Ok (conn_saslRemainingData, out))))).
+
+End WithTracker.
